@@ -13,7 +13,7 @@ from .. import aging, contracts, gen, geom
 PROPERTY = "C02"
 RULE = ("G-mesh: voxel solids (U, C, staircase, frames with a through-hole, random face-connected manifolds) under rigid "
         "motion x optional anisotropic scaling, extruded simple polygons with ear-clipped caps, radially perturbed triangulated "
-        "hulls, Polyhedron copies of convex solids; offsets up to 10 diameters.  Non-trivial = not star-shaped about its "
+        "hulls, Polyhedron copies of convex solids; offsets up to 10 diameters, and 100 / 1000 / 3000 diameters in one case in five (judged by the accuracy law measured there).  Non-trivial = not star-shaped about its "
         "centroid, or genus 1, or offset ratio >= 1; distinct = SHA-1 of rounded vertices+faces.")
 ASSUMPTIONS = ["faces are convex and consistently outward oriented by construction (as the statement requires)",
                "shapes whose smallest face is < 1e-3 of the largest are not generated (polytri's documented limits)"]
@@ -74,28 +74,42 @@ def setup(rec, tier):
     def shape_tag(s, F):
         return "star-shaped" if star_shaped_about(F["c"], F["tris"]) else "not-star-shaped"
 
+    # Tolerances.  Near the origin (distance/diameter r < 50) they are 1e-9 of each quantity's natural magnitude.  Far away
+    # (r = 100 .. 3000) that would allow everything: there the unchanged code follows a clean law - volume within 1e-16 d^3 r^2,
+    # areas within 3e-16 d^2 r, centroid within 2e-15 d r^2, tensor within 2e-15 V L^2 r^2 (measured over all mesh kinds) -
+    # and the monitors allow 200 times that law, so that an algorithm that loses one more power of r is a violation.
+    def tol_vol(F):
+        r = F["L"] / F["d"]
+        return 1e-9 * F["d"] ** 2 * F["L"] if r < 50 else 2e-14 * F["d"] ** 3 * r ** 2
+
+    def tol_area(F):
+        r = F["L"] / F["d"]
+        return 1e-9 * F["d"] * F["L"] if r < 50 else 6e-14 * F["d"] ** 2 * r
+
     def vol(s, a, k, res):
         F = facts(s)
-        rec.close("Polyhedron.volume", float(res), F["V"], 1e-9 * F["d"] ** 2 * F["L"], "Polyhedron.volume", lambda: _wit(s))
+        rec.close("Polyhedron.volume", float(res), F["V"], tol_vol(F), "Polyhedron.volume", lambda: _wit(s))
 
     def area(s, a, k, res):
         F = facts(s)
-        rec.close("Polyhedron.surface_area", float(res), F["S"], 1e-9 * F["d"] * F["L"], "Polyhedron.surface_area", lambda: _wit(s))
+        rec.close("Polyhedron.surface_area", float(res), F["S"], tol_area(F), "Polyhedron.surface_area", lambda: _wit(s))
 
     def fa(s, a, k, res):
         F = facts(s)
         arg = a[0] if a else k.get("faces", None)
         idx = list(range(len(F["fa"]))) if arg is None else ([int(arg)] if isinstance(arg, (int, np.integer)) else [int(x) for x in arg])
-        rec.close("Polyhedron.get_face_area", np.atleast_1d(np.asarray(res, float)), F["fa"][idx], 1e-9 * F["d"] * F["L"],
+        rec.close("Polyhedron.get_face_area", np.atleast_1d(np.asarray(res, float)), F["fa"][idx], tol_area(F),
                   "Polyhedron.get_face_area", lambda: _wit(s, arg=arg))
 
     def cen(s, a, k, res):
         F = facts(s)
-        rec.close("Polyhedron.centroid", np.asarray(res, float), F["c"], 1e-9 * F["L"], "Polyhedron.centroid", lambda: _wit(s))
+        r = F["L"] / F["d"]
+        rec.close("Polyhedron.centroid", np.asarray(res, float), F["c"], max(1e-9 * F["L"], 4e-13 * F["d"] * r ** 2), "Polyhedron.centroid", lambda: _wit(s))
 
     def it(s, a, k, res):
         F = facts(s)
-        rec.close("Polyhedron.inertia_tensor", np.asarray(res, float), F["I"], 1e-8 * F["V"] * F["L"] ** 2,
+        r = F["L"] / F["d"]
+        rec.close("Polyhedron.inertia_tensor", np.asarray(res, float), F["I"], max(1e-8, 4e-13 * r ** 2) * F["V"] * F["L"] ** 2,
                   "Polyhedron.inertia_tensor/" + shape_tag(s, F), lambda: _wit(s))
 
     contracts.hook(P, "volume", post=only_base(vol))
@@ -108,7 +122,7 @@ def setup(rec, tier):
 
 def run_case(i, rng, rec, tier, state):
     cs = state["cs"]
-    c = gen.mesh_case(rng)
+    c = gen.mesh_case(rng, far_frac=0.2)
     V, faces = c["V"], c["faces"]
     as_arrays = rng.random() < 0.5
     try:
